@@ -511,7 +511,7 @@ def _k3_obligations(tier: str) -> List[Ob]:
 STUB_UNTRACED = ('K3:hier: CrossHair tracing is suspended (crosshair.tracers.NoTracing) once every selector has been made '
                  'concrete: the real main program runs on the concrete files natively')
 REAL_K3H = REAL_K3 + (
-    'exactly_lib.test_suite.processing.Processor.report',
+    'exactly_lib.test_suite.processing._SuiteExecutionReporter.report',
     'exactly_lib.test_suite.processing.SuitesExecutor.execute_and_report',
     'exactly_lib.test_suite.enumeration.DepthFirstEnumerator',
     'exactly_lib.test_suite.file_reading.suite_hierarchy_reading._SingleFileReader.__call__',
@@ -538,6 +538,14 @@ def _pre_k3h(rm: int, am: int, bm: int, rp: int, ap: int, bp: int, sa: bool, nr:
     return _in(cm, c['cm']) and _in(order, c['order'])
 
 
+def _concrete_in(v, allowed) -> int:
+    """v (one of `allowed` by the pre-condition) as a concrete int - ob.concrete_int over the allowed values only"""
+    for x in allowed:
+        if v == x:
+            return x
+    raise ValueError('%r not in %r' % (v, allowed))
+
+
 def k3_hierarchy(rm: int, am: int, bm: int, rp: int, ap: int, bp: int, sa: bool, nr: int, na: int, nb: int, cm: int,
                  order: int) -> bool:
     """
@@ -551,9 +559,9 @@ def k3_hierarchy(rm: int, am: int, bm: int, rp: int, ap: int, bp: int, sa: bool,
     suites, n_cases = {}, {}
     for t in tags:
         m, p, n = vals[t]
-        suites[t] = L.hier_contents(t, ob.concrete_int(m, 0, 63), ob.concrete_int(p, 0, 2), shared_actor)
-        n_cases[t] = ob.concrete_int(n, 0, 2)
-    cmask, order_c = ob.concrete_int(cm, 0, 63), ob.concrete_int(order, 0, 3)
+        suites[t] = L.hier_contents(t, _concrete_in(m, c['masks'][t]), _concrete_in(p, c['pps'][t]), shared_actor)
+        n_cases[t] = _concrete_in(n, c['n'][t])
+    cmask, order_c = _concrete_in(cm, c['cm']), _concrete_in(order, c['order'])
     with ob.untraced():  # every selector is concrete by now
         obs = L.hier_observe(c['shape'], suites, n_cases, cmask, order_c, bool(c.get('exactly_names')),
                              bool(c.get('oracle_bug')))
